@@ -78,6 +78,13 @@ int disasm_68hc08(
       }
     }
 
+    // The byte after the 0x9e prefix selected the (unknown) instruction,
+    // so it is part of it.
+    if (m68hc08_16_table[n].instr == NULL && (opcode >> 8) == 0x9e)
+    {
+      size = 2;
+    }
+
     return size;
   }
 
